@@ -129,7 +129,7 @@ func cmdCheck(args []string) int {
 	dir, _ := os.MkdirTemp("", "govc-")
 	defer os.RemoveAll(dir)
 	t2 := time.Now()
-	x.solveAll(x.obls, dir, timeout, agree, 16)
+	x.obls = x.solveAllSplit(x.obls, dir, timeout, agree, 16)
 	solveS := time.Since(t2).Seconds()
 
 	// classify
@@ -477,6 +477,16 @@ func (x *Exec) verifyChainState(c *ChainDef, pkgName, f string) {
 			lab := r.Label
 			if lab == "" {
 				lab = fmt.Sprint(i + 1)
+			}
+			skip := false
+			for _, sk := range c.Skip {
+				if sk == lab {
+					skip = true
+				}
+			}
+			if skip {
+				x.assumed["chain "+c.Name+": precondition ["+lab+"] of "+g+" is assumed on its incoming edges, not checked"] = true
+				continue
 			}
 			x.oblige(gs, "edge", lab, f+"->"+g, envG.boolean(r.Expr), "postcondition of "+f+" on the edge to "+g+" implies this precondition of "+g)
 		}
